@@ -72,18 +72,22 @@ package asr
 //@     complete [all_iterations_no_early_exit]
 //@   loop 3
 //@     complete [all_iterations_no_early_exit]
+//@     step [the_set_coming_from_above_is_the_up_state_of_this_node_itself] state.counts[rangeindex + 1] == atHead(state.counts[rangeindex + 1]) + atHead(upseqs[cur.id].seq[j].counts[rangeindex + 1])
 //@   loop 4
 //@     complete [all_iterations_no_early_exit]
 //@   loop 5
 //@     complete [all_iterations_no_early_exit]
+//@     step [the_down_state_of_every_other_child_is_added] state.counts[rangeindex + 1] == atHead(state.counts[rangeindex + 1]) + atHead(seqs[child2.id].seq[j].counts[rangeindex + 1])
 //@   loop 6
 //@     complete [all_iterations_no_early_exit]
 //@   loop 7
 //@     complete [all_iterations_no_early_exit]
+//@     step [the_set_coming_from_above_is_the_up_state_of_this_node_itself] state.counts[rangeindex + 1] == atHead(state.counts[rangeindex + 1]) + atHead(upseqs[cur.id].seq[j].counts[rangeindex + 1])
 //@   loop 8
 //@     complete [all_iterations_no_early_exit]
 //@   loop 9
 //@     complete [all_iterations_no_early_exit]
+//@     step [the_down_state_of_every_child_is_added] state.counts[rangeindex + 1] == atHead(state.counts[rangeindex + 1]) + atHead(seqs[child.id].seq[j].counts[rangeindex + 1])
 //@   loop 10
 //@     complete [all_iterations_no_early_exit]
 
